@@ -42,4 +42,16 @@ PROPS['C01'] = {
     'explanation': 'TODO',
 }
 
+PROPS['C02'] = {
+    'run_vo': 'Codec/RunC02.vo', 'props_vo': 'Properties/C02.vo', 'level': 'proof',
+    'classes': {1: 'decoder-panicked-or-hung', 2: 'datagram-decode-differs-from-reference', 3: 'stream-header-differs-from-reference',
+                4: 'stream-decode-differs-from-reference', 5: 'accepted-message-not-canonical', 6: 'pooled-message-aliases-caller-buffer',
+                7: 'pooled-decode-differs-from-reference'},
+    'trusted': ['hook tcp/coder/export_verif.go (build tag verif) exposing messageMaxLen read by gen'],
+    'assumptions': ['Go slices modelled as lists with explicit bounds checks (Panic result)', 'uint32 header arithmetic modelled in Z with explicit mod 2^32'],
+    'level_text': 'TODO',
+    'level_note': 'TODO',
+    'explanation': 'TODO',
+}
+
 NOT_APPLICABLE = {}
